@@ -69,26 +69,29 @@ def run(ctx):
         ok, wit, _ = guarded_by(b, bi, lambda c: evidence(F, c) is not None, edge_conditions(b))
         ins_ev.append((b, bi, ok, wit))
     all_ins_ok = bool(ins_ev) and all(x[2] for x in ins_ev)
-    for (root, bid, bi, t) in serve:
-        b = F.bodies[bid]
-        conds = edge_conditions(b)
-        ok, wit, _ = guarded_by(b, bi, lambda c: evidence(F, c) is not None, conds)
-        kinds = sorted(set(evidence(F, c) for c in conds.values() if evidence(F, c) and guarded_by(b, bi, lambda x: x is c, conds)[0]))
-        from_queue = Slice(F, b, through_calls=True).operand(t["args"][1]).has_field("LeaderState", "pending_reads")
-        key = "%s#execute_pending_reads#%s" % (fkey(root), "queued" if from_queue else "inline")
-        if ok:
-            ctx.ok("C11-a", key, "guarded by %s" % (kinds or "a disjunction of single_voter / lease-valid / quorum"), loc(b, bi))
-        elif from_queue and all_ins_ok:
-            ctx.ok("C11-a", key, "serves the wait queue; every insertion into it is made under leadership evidence", loc(b, bi))
-        else:
-            unev = [loc(x[0], x[1]) for x in ins_ev if not x[2]]
-            ctx.bad("C11-a", key,
-                    "linearizable reads are answered with no leadership evidence in this function (no single_voter / is_lease_valid / majority-matched test on "
-                    "the path)%s. History: leader L is cut off from the majority, its lease expires, a new leader commits and acknowledges write W; a client "
-                    "then sends a linearizable read to L: lease invalid, so it is queued under L's old commit index; an apply that was still in flight on L "
-                    "completes (last_index >= read_index) and this site answers from L's state machine, which lacks W"
-                    % ("; the queue it serves is filled at %s on paths where the lease is invalid" % unev if from_queue else ""),
-                    loc(b, bi), wit and bpath(b, wit))
+    for (root0, bid0, bi0, t) in serve:
+        from_queue = Slice(F, F.bodies[bid0], through_calls=True).operand(t["args"][1]).has_field("LeaderState", "pending_reads")
+        # the function in which the evidence for this serve is (or should be) established
+        for (b, bi, ok, wit) in lift_to_guard(F, F.bodies[bid0], bi0, lambda c: evidence(F, c) is not None):
+            root = F.root_of[b.id]
+            conds = edge_conditions(b)
+            kinds = sorted(set(evidence(F, c) for c in conds.values() if evidence(F, c) and guarded_by(b, bi, lambda x: x is c, conds)[0]))
+            if not from_queue and b.id != bid0:
+                from_queue = any(Slice(F, b, through_calls=True).operand(a).has_field("LeaderState", "pending_reads") for a in b.term(bi)["args"])
+            key = "%s#execute_pending_reads#%s" % (fkey(root), "queued" if from_queue else "inline")
+            if ok:
+                ctx.ok("C11-a", key, "guarded by %s" % (kinds or "a disjunction of single_voter / lease-valid / quorum"), loc(b, bi))
+            elif from_queue and all_ins_ok:
+                ctx.ok("C11-a", key, "serves the wait queue; every insertion into it is made under leadership evidence", loc(b, bi))
+            else:
+                unev = [loc(x[0], x[1]) for x in ins_ev if not x[2]]
+                ctx.bad("C11-a", key,
+                        "linearizable reads are answered with no leadership evidence in this function (no single_voter / is_lease_valid / majority-matched test on "
+                        "the path)%s. History: leader L is cut off from the majority, its lease expires, a new leader commits and acknowledges write W; a client "
+                        "then sends a linearizable read to L: lease invalid, so it is queued under L's old commit index; an apply that was still in flight on L "
+                        "completes (last_index >= read_index) and this site answers from L's state machine, which lacks W"
+                        % ("; the queue it serves is filled at %s on paths where the lease is invalid" % unev if from_queue else ""),
+                        loc(b, bi), wit and bpath(b, wit))
 
     # ---------------------------------------------------------------- C11-b noop gate / read index / apply gate
     ex = ctx.anchor(F.method, "LeaderState", "execute_and_process_raft_rpc")
